@@ -537,3 +537,34 @@ REG.pylemma('C07-heartbeat-arithmetic', ['C07'], _c07,
             note='ACCURACY and BOUND over the ghost clock; uses the postconditions of _send_ping '
                  '(PING exactly ping_interval after it was scheduled), receive/PONG (re-arms) and '
                  'check_ping_timeout (strict test)')
+
+# ----------------------------------------------------------------------- the writer agent (C03)
+# Spawned by _websocket_handler once the session is in WebSocket mode: it hands every packet it
+# takes from the queue to ws.send as wire(pkt, binary channel), in order, and stops on the sentinel,
+# on a poll time-out or on a send error.
+for cls, mod in (('Socket', 'socket'), ('AsyncSocket', 'async_socket')):
+    c = REG.contract('%s.%s._websocket_handler.writer' % (mod, cls), props=['C03', 'C18'])
+    c.env = {'self': Ref(cls), 'ws': Opaque('WS')}
+    c.requires(SOCK_WF, 'socket-wf')
+    c.ensures('frames-are-the-taken-packets-in-order',
+              'sent_frames_match(ws_log, old(ws_log), self.queue.taken, old(self.queue.taken))',
+              props=['C03'])
+    c.ensures('nothing-taken-is-dropped-unless-send-failed', 'grows(self.queue.taken, '
+              'old(self.queue.taken))', props=['C03'])
+    c.modifies('self.queue.items', 'self.queue.unf', 'self.queue.taken', 'self.queue.accepted',
+               'self.queue.put_none', 'self.queue.taken_none', 'ghost.now', 'ghost.ws_log',
+               'Packet.encode_cache')
+    c.loop(0, invariants=[
+        ('every-taken-packet-written', 'batch_frames_match(ws_log, old(ws_log), self.queue.taken, '
+         'old(self.queue.taken), 0, 0)'),
+        ('taken-grows', 'grows(self.queue.taken, old(self.queue.taken))'),
+        ('queue-wf', 'self.queue.unf >= len(self.queue.items)')],
+        modifies=['packets', 'pkt', 'self.queue.items', 'self.queue.unf', 'self.queue.taken',
+                  'self.queue.accepted', 'self.queue.put_none', 'self.queue.taken_none',
+                  'ghost.now', 'ghost.ws_log', 'Packet.encode_cache'])
+    c.loop(1, index='j', invariants=[
+        ('frames-of-this-batch', 'batch_frames_match(ws_log, old(ws_log), self.queue.taken, '
+         'old(self.queue.taken), len(packets), j)'),
+        ('packets-wf', 'forall(lambda k: packets[k] is not None and packet_ok(packets[k]), 0, '
+         'len(packets))')],
+        modifies=['pkt', 'ghost.now', 'ghost.ws_log', 'Packet.encode_cache'])
